@@ -6,7 +6,7 @@ import ast
 from ..core import unparse
 from ..selftest import B, M
 from .common import F_BASE, F_BC, F_QUAL, F_QUAN, calls, construct, loc
-from . import c04, c05, carver, quant
+from . import c04, c05, c07, carver, quant
 
 EXPLANATION = (
     "Decides: R-neighbour-merge (abstract interpretation of find_closest_modality over 'offset from "
@@ -18,10 +18,11 @@ EXPLANATION = (
     "R-categorical-order (modalities sorted by increasing training target rate, NaN last, the pure "
     "sort_by result is stored); R-contiguous-groups (every enumerated group is the slice "
     "order[a:b]; combinations are applied with group_list(group, group[0]), which keeps the first "
-    "element of the slice as leader in place)."
+    "element of the slice as leader in place); R-index-kept (labels computed from plain lists are stored with "
+    "index=X.index, so each row gets the label of its own value)."
 )
 NOT_DECIDED = "monotonicity of the fitted step function on actual boundaries (follows from the above given sortedness; the numeric boundaries are runtime values)"
-FLOORS = {"R-neighbour-merge": 4, "R-boundaries-sorted-unique-inf": 4, "R-leader-is-max": 1, "R-interval-lookup": 2, "R-total-cover": 3, "R-categorical-order": 4, "R-contiguous-groups": 12}
+FLOORS = {"R-neighbour-merge": 4, "R-boundaries-sorted-unique-inf": 4, "R-leader-is-max": 1, "R-interval-lookup": 2, "R-total-cover": 3, "R-categorical-order": 4, "R-contiguous-groups": 12, "R-index-kept": 1}
 
 
 def rule_apply_combination(ctx):
@@ -41,6 +42,7 @@ def check(ctx):
     quant.check_categorical_order(ctx, "R-categorical-order")
     carver.check_enum_bounds(ctx, "R-contiguous-groups")
     rule_apply_combination(ctx)
+    c07.rule_index_kept(ctx)
 
 
 MUTANTS = [
